@@ -215,6 +215,89 @@ Fixpoint seal_stream (A : aead) (key : bytes) (ctr : N) (ps : list bytes) : byte
   | p :: r => seal_frame A key ctr p ++ seal_stream A key (ctr + 1)%N r
   end.
 
+(* ------------------------------------------------------------------ a whole session *)
+(* One live protocol object: requests, network reads, cancellation of an in-flight
+   request and the transport's flow-control callbacks interleaved in any order.
+   * send_bytes seals (advancing c2a_counter) and only then `_send_lines` looks at
+     transport.is_closing(): on a dead session the request is refused
+     (AccessoryDisconnectedError), nothing is written.
+   * cancelling / timing out a request that awaits its response closes the transport
+     (`except BaseException: write_eof(); close()`): no further reads, sends refused.
+     (Precondition kept by the harness: OCancel only while a request is in flight.)
+   * pause_writing / resume_writing are asyncio.Protocol's no-ops: a request issued
+     while the transport is paused is written at once (the transport buffers it).
+   * after ERaise (counter exhausted) the real counter is stuck at 2^64; the model keeps
+     the old state and the harness ends the session there. *)
+Inductive sop : Type :=
+| OSend (p : bytes)
+| ORecv (d : bytes)
+| OCancel
+| OPause
+| OResume.
+
+Inductive sev : Type :=
+| EWrote (fs : list sframe)    (* frames handed to transport.writelines by this request *)
+| ERaise                       (* struct.error, nothing written *)
+| ERefused                     (* transport closing: AccessoryDisconnectedError, nothing written *)
+| EDeliv (ps : list bytes)     (* plaintexts handed to the HTTP layer by this read *)
+| EClosed
+| ENop.
+
+Record sess : Type := mkSess { s_rx : rstate; s_tx : N }.
+
+Section Session.
+  Variable F : nat.
+  Variable T : nat.
+  Variable opn : bytes -> bytes -> bytes -> option bytes.
+
+  Definition sess_step (s : sess) (o : sop) : sess * sev :=
+    match o with
+    | OSend p =>
+        match send F (s_tx s) p with
+        | Ok r =>
+            match s_rx s with
+            | Dead => (mkSess Dead (snd r), ERefused)
+            | Live b c => (mkSess (Live b c) (snd r), EWrote (fst r))
+            end
+        | _ => (s, ERaise)
+        end
+    | ORecv d => let (r, o) := feed T opn (s_rx s) d in (mkSess r (s_tx s), EDeliv o)
+    | OCancel => (mkSess Dead (s_tx s), EClosed)
+    | OPause => (s, ENop)
+    | OResume => (s, ENop)
+    end.
+
+  Fixpoint sess_run (s : sess) (ops : list sop) : sess * list sev :=
+    match ops with
+    | [] => (s, [])
+    | o :: r =>
+        let (s1, e) := sess_step s o in
+        let (s2, es) := sess_run s1 r in (s2, e :: es)
+    end.
+
+  (* requests one after the other, counter threaded through *)
+  Fixpoint sends_seq (ctr : N) (ps : list bytes) : list (list sframe) * N :=
+    match ps with
+    | [] => ([], ctr)
+    | p :: r =>
+        let x := send_sym F ctr p in
+        let y := sends_seq (snd x) r in (fst x :: fst y, snd y)
+    end.
+End Session.
+
+(* projections of a script / of its trace *)
+Fixpoint recvs (ops : list sop) : list bytes :=
+  match ops with [] => [] | ORecv d :: r => d :: recvs r | _ :: r => recvs r end.
+Fixpoint sent (ops : list sop) : list bytes :=
+  match ops with [] => [] | OSend p :: r => p :: sent r | _ :: r => sent r end.
+Fixpoint delivered (es : list sev) : list bytes :=
+  match es with [] => [] | EDeliv ps :: r => ps ++ delivered r | _ :: r => delivered r end.
+Fixpoint wrote (es : list sev) : list (list sframe) :=
+  match es with [] => [] | EWrote fs :: r => fs :: wrote r | _ :: r => wrote r end.
+Definition no_cancel (o : sop) : bool := match o with OCancel => false | _ => true end.
+Definition accepted_ev (e : sev) : bool :=
+  match e with ERaise => false | ERefused => false | _ => true end.
+
 (* ------------------------------------------------------------------ toy instance *)
 (* ciphertext = plaintext ++ 16-byte "tag" = nonce ++ aad, zero padded / cut to 16
    bytes; open checks the length and the tag (so a wrong counter or a wrong length
@@ -244,3 +327,6 @@ Definition ip_acc_recv := acc_recv CHUNK TAGLEN.
 Definition ip_step := step TAGLEN.
 Definition ip_feed := feed TAGLEN.
 Definition ip_feed_all := feed_all TAGLEN.
+Definition ip_sess_step := sess_step CHUNK TAGLEN.
+Definition ip_sess_run := sess_run CHUNK TAGLEN.
+Definition ip_sends_seq := sends_seq CHUNK.
